@@ -15,10 +15,7 @@ SmallCases == {[rot |-> "cert_block_21", keys |-> ks, encs |-> [i \in 1..Len(ks)
                  ks \in Menu1 \cup {<<K("p521", 1), K("p521", 2)>>}, e \in {Enc("path", "ca.der"), Enc("obj", "crt")}}
 DoCompute == \E c \in SmallCases : Legal(c) /\ Compute(c)
 \* a small world of devices: one family whose RoT type CHANGED with a silicon revision ("latest" = the newer one), one with a single
-\* type, one whose "latest" is not the last revision listed
-MCDevices == <<[fam |-> "famA", revs |-> <<"a0", "b0">>, rots |-> <<"cert_block_21", "srk_table_hab">>, latest |-> "b0", pfr |-> FALSE, dc |-> TRUE],
-               [fam |-> "famB", revs |-> <<"a0", "a1">>, rots |-> <<"cert_block_21", "cert_block_21">>, latest |-> "a0", pfr |-> TRUE, dc |-> FALSE],
-               [fam |-> "famC", revs |-> <<"a0">>, rots |-> <<"srk_table_hab">>, latest |-> "a0", pfr |-> FALSE, dc |-> FALSE]>>
+\* type, one whose "latest" is not the last revision listed (RotMC_devices.ndjson, named by C03_DEVICES for the MC runs)
 DoComputeFor == \E i \in 1..Len(Devices) : \E rev \in RevNames(Devices[i]) : \E c \in SmallCases :
                    \E p \in {"rot", "cli", "dc", "rot_table"} : ComputeFor(Devices[i].fam, rev, [c EXCEPT !.path = p, !.used = IF UsesUsed(p) THEN 1 ELSE 0])
 DoWriteFile == \E f \in {1, 2} : \E k \in {K("p256", 1), K("p256", 5)} : \E e \in {Enc("path", "pub.pem"), Enc("path", "ca.der")} : WriteFile(f, k, e)
